@@ -69,7 +69,7 @@ m = {
                  "kind_free_text": "Lean 4 executable model + spec + theorems; Rust line-protocol harness; Python orchestrator"}],
     "checks": checks,
     "not_applicable": [],
-    "notes": "15 genuine defects were repaired in /repo as separate `fix:` commits (known_findings.json, DESIGN.md section 4); one open known finding (D8 int/int).",
+    "notes": "16 genuine defects were repaired in /repo as separate `fix:` commits (known_findings.json, DESIGN.md section 4); one open known finding (D8 int/int).",
 }
 json.dump(m, open(ROOT / "MANIFEST.json", "w"), indent=1)
 print("MANIFEST.json written:", len(checks), "checks")
